@@ -803,6 +803,80 @@ def suite_sweep(env, dis, stats):
 # ------------------------------------------------------------------------------------------------
 # main
 # ------------------------------------------------------------------------------------------------
+def targeted_search(env, acc, diag, seed, budget_s=240):
+    """failing-input search when a table/wrapper obligation breaks: the wrappers named by the diagnosis may differ
+    from the named algorithm only on part of their input space (a fallback branch inside the wrapper).  Every cell of
+    the diagnosed (cipher mode, key length, direction) rows is run with many geometries (cipher / hash lengths 0, 1,
+    around the block and CRC thresholds, shifted offsets, in and out of place, both chain orders) on all variants and
+    entry points; a result that differs from the extracted job model or between variants, and that is not an
+    acknowledged finding of C01-C03, is the failing input."""
+    from . import k1
+    rows = sorted({(int(a), int(b), int(c)) for a, b, c in re.findall(r'"%string,\s*\((\d+),\s*(\d+),\s*(\d+)\)', diag or "")})
+    hrows = sorted({int(h) for h in re.findall(r'\("[a-z0-9_]+"%string,\s*(\d+),\s*\("', diag or "")})
+    if not rows and not hrows:
+        return None, 0
+    t0 = time.time()
+    M = Material(seed + 77)
+    rng = Rng(seed + 78)
+    cells = [c for c, fl in acc.items() if (fl & 2) and ((c[0], c[1], c[2]) in rows or c[3] in hrows)
+             and c[0] not in AUX_CIPHERS and c[3] not in AUX_HASHES]
+    # diagnosed rows first with their paired / NULL hashes, then the rest, bounded
+    cells.sort(key=lambda c: (0 if (c[0], c[1], c[2]) in rows else 1, 0 if (c[3] == H_NULL or PAIRS.get(c[0]) == c[3]) else 1, c))
+    cells = cells[:160]
+    items, iid = [], 1
+    lens = [0, 1, 4, 5, 8, 13, 14, 15, 16, 17, 31, 32, 33, 43, 48, 52, 60, 61, 64]
+    for c in cells:
+        base = cell_item(M, 0, *c)
+        bitc, bith = base["cipher"] in (13, 15, 16), base["hash"] in BIT_HASHES
+        for k in range(10):
+            it = dict(base)
+            it["id"] = iid
+            iid += 1
+            if k:
+                bcl, bhl = base["clen"] // (8 if bitc else 1), base["hlen"] // (8 if bith else 1)
+                # systematic part: one stage switched off or at its thresholds while the other keeps its length
+                cl, hl = [(bcl, 0), (0, bhl), (bcl, 1), (bcl, 13), (bcl, 14), (1, bhl), (16, bhl),
+                          (rng.choice(lens), rng.choice(lens)), (rng.choice(lens), bhl)][k - 1]
+                it["clen"] = cl * (8 if bitc else 1)
+                it["hlen"] = hl * (8 if bith else 1)
+                if base["cipher"] == C_NULL:
+                    it["clen"] = 0
+                if base["hash"] == H_NULL:
+                    it["hlen"] = 0
+                if PAIRS.get(base["cipher"]) == base["hash"] and base["cipher"] != 4 and base["cipher"] != 11:
+                    it["hoff"], it["hlen"] = it["coff"], it["clen"]
+                it["inplace"] = k & 1
+            it["_stream"], it["_valid"], it["_iv"] = "c06-search", True, "rnd"
+            items.append(it)
+    eng = k1.Engine(PID, "quick", seed, env["mtools"])
+    known = k1.parse_known("C01") + k1.parse_known("C02") + k1.parse_known("C03")
+    found, n = None, 0
+    for lo in range(0, len(items), 200):
+        if time.time() - t0 > budget_s:
+            break
+        chunk = items[lo:lo + 200]
+        try:
+            model, pr, dis = eng.eval_items(chunk, 1, None, None)
+        except Exception as ex:
+            log("targeted search: chunk failed: %r" % (ex,))
+            continue
+        n += len(chunk)
+        byid = {it["id"]: it for it in chunk}
+        for d in dis:
+            if any(k1.known_match(cons, d["attrs"]) for cons, _ in known):
+                continue
+            # perturbed geometries may be outside what the job model defines (class a = every path agrees with every
+            # other one): only a difference BETWEEN variants / entry points counts as a failing input here
+            if d["attrs"]["class"] == "a" or str(d["attrs"]["field"]).startswith("status"):
+                continue
+            it = byid[d["id"]]
+            found = dict(work_item=k1.item_line(it), attrs={k: v for k, v in d["attrs"].items()}, paths=[list(p) for p in d["paths"]][:12],
+                         outcome=d.get("outcome"), model=model.get(d["id"]))
+            return found, n
+    return found, n
+
+
+
 def consts():
     sys.path.insert(0, os.path.join(common.VERIF, "translators"))
     import t0_consts
@@ -845,6 +919,10 @@ def setup(res=None):
     mt = MTools()
     mt.drv = k1.build_model_driver()
     mt.work = env["work"]
+    mt.k1 = env["k1"]
+    mt.variants = env["variant_names"]
+    mt.variant_table = []
+    mt.lib_build_s = env["lib_build_s"]
     env["mtools"] = mt
     return env
 
@@ -1016,7 +1094,24 @@ def main(tier, seed):
         diag = coq_diagnose(env["work"], acc)
         res.coverage["broken_obligations_diagnosis"] = diag[-3000:]
         log("diagnosis of the broken obligations (entries that are not the named algorithm):\n" + diag[-2500:])
+    found = None
     if broken and not groups:
+        try:
+            found, nsearch = targeted_search(env, acc, diag, seed)
+            res.coverage["targeted_search_items"] = nsearch
+        except Exception as ex:
+            log("targeted search failed: %r" % (ex,))
+    if broken and not groups and found:
+        a = found["attrs"]
+        cell = (a["cipher"], a["klen"], a["dir"], a["hash"], a["order"])
+        res.violation(dict(property=PID, what="targeted-search", found_by="geometry search over the cells named by the diagnosis of the broken obligations",
+                           cell=dict(cipher_mode=cell[0], key_len=cell[1], direction=cell[2], hash_alg=cell[3], chain_order=cell[4]),
+                           cell_name=cell_name(cell), work_item=found["work_item"], harness="k1_algo", attrs=a, paths=found["paths"],
+                           library_outcome=found["outcome"], model_outcome=found["model"], broken_obligations=pres["failed"], diagnosis=diag,
+                           kinds={"model": 1}, validation=dict(light=True, full=True)),
+                      note="%s: class %s on %s field %s (found by the targeted search)" % (cell_name(cell), a["class"], a["vars"], a["field"]),
+                      name="search_%d_%d" % (cell[0], cell[3]))
+    elif broken and not groups:
         res.violation(dict(property=PID, broken_obligations=pres["failed"], log=pres["log"][-3000:], diagnosis=diag,
                            note="theorems of Props/Properties_C06.v no longer check; the exhaustive sweep found no cell on which the "
                                 "library dispatches to anything but the named cipher and hash"),
